@@ -30,7 +30,9 @@ def check_one(name, mod, x, opts, cls, viols):
     o2 = C.outcome(mod.validate, v, **opts)
 
     def add(clause, what):
-        sig = 'C02|%s|%s' % (name, clause)
+        # the trigger keeps a finding about exotic characters from hiding one about plain input
+        trigger = 'plain-input' if all('!' <= ch <= '~' for ch in x.strip(' ')) else 'blank-control-or-non-ascii-inside'
+        sig = 'C02|%s|%s|%s' % (name, clause, trigger)
         if sig in viols:
             viols[sig]['count'] += 1
             return
